@@ -22,10 +22,11 @@ func parseExpression(tokens []string) (*ExprNode, error) {
 		if err != nil {
 			return nil, err
 		}
-		if len(remaining) > 0 {
-			return nil, fmt.Errorf("unexpected token after expression: %s", remaining[0])
+		if len(remaining) == 0 {
+			return node, nil
 		}
-		return node, nil
+		// The CASE expression is an operand of a larger expression
+		// (CASE ... END = 1, CASE ... END + x): parse it as a whole below.
 	}
 
 	node, remaining, err := parseOrExpression(tokens)
@@ -242,6 +243,11 @@ func parsePrimaryExpression(tokens []string) (*ExprNode, []string, error) {
 	}
 
 	token := tokens[0]
+
+	// A CASE expression is an operand like any other
+	if strings.ToUpper(token) == "CASE" {
+		return parseCaseExpression(tokens)
+	}
 
 	// Handle parentheses
 	if token == "(" {
